@@ -21,6 +21,10 @@ type MVersion struct {
 type MKey struct {
 	Entries []*MVersion // creation order; the last one is the newest
 	Ever    []string    // every version ID ever returned for this key (live or not)
+	// NullWrites counts uploads/deletes made while versioning was not enabled.
+	// The model keeps at most one "null" entry; an implementation may keep more
+	// of them (the statements only protect versions created while enabled).
+	NullWrites int
 }
 
 type MBucket struct {
@@ -161,6 +165,7 @@ func (mb *MBucket) applyPut(m *Model, k string, body []byte, meta map[string]str
 	}
 	// never versioned or suspended: the upload replaces the "null" version;
 	// versions created while versioning was enabled stay.
+	mk.NullWrites++
 	v.Null = true
 	v.ID = ""
 	mk.dropNull()
@@ -186,6 +191,7 @@ func (mb *MBucket) applyDelete(m *Model, k string, markerID string) {
 	if mk == nil {
 		return
 	}
+	mk.NullWrites++
 	mk.dropNull()
 	if mb.Versioning == "Suspended" && len(mk.Entries) > 0 {
 		// the key must read as deleted although enabled-era versions remain:
